@@ -348,7 +348,9 @@ theorem zDeleteRank_fk (db : DB) (k : Bytes) (a b now : Int) : (zDeleteRank db k
   unfold zDeleteRank
   split
   · rfl
-  · exact zDeleteWhere_fk _ _ _ _
+  · split
+    · rfl
+    · exact zDeleteWhere_fk _ _ _ _
 
 theorem zDeleteAll_fk (db : DB) (k : Bytes) (now : Int) : (zDeleteAll db k now).fk = db.fk := by
   unfold zDeleteAll; split <;> rfl
